@@ -6,23 +6,23 @@ import langlib
 DEVS = ["DEV_OtherwiseFlagIsGlobal", "DEV_MemoKeyedByValueOnly", "DEV_MemoCachesFailure"]
 
 
-def gen_cfg(profile, lo=1, hi=1, seedset=(), devs=()):
-    consts = {"SeedLo": lo, "SeedHi": hi, "SeedSet": set(seedset), "Profile": profile}
+def gen_cfg(profile, lo=1, hi=1, seedset=(), devs=(), year=False, invariants=("Emit",)):
+    consts = {"SeedLo": lo, "SeedHi": hi, "SeedSet": set(seedset), "Profile": profile, "YearOpt": year}
     for d in DEVS:
         consts[d] = d in devs
-    return vlib.cfg_text(spec="Spec", constants=consts, invariants=["Emit"])
+    return vlib.cfg_text(spec="Spec", constants=consts, invariants=list(invariants))
 
 
-def generate(ctx, profile, lo=1, hi=1, seedset=(), devs=(), label=None):
-    r = vlib.tlc(ctx, "MtailGen", gen_cfg(profile, lo, hi, seedset, devs),
+def generate(ctx, profile, lo=1, hi=1, seedset=(), devs=(), label=None, year=False, invariants=("Emit",)):
+    r = vlib.tlc(ctx, "MtailGen", gen_cfg(profile, lo, hi, seedset, devs, year, invariants),
                  label=label or ("MtailGen-%s%s" % (profile, "-dev" if devs else "")), timeout=2400, heap="12g")
     return r.cases
 
 
-def replay(ctx, binary, cases, opt="on", extra=None):
+def replay(ctx, binary, cases, opt="on", extra=None, fresh=False):
     if extra:
         cases = [dict(c, **extra) for c in cases]
-    recs = vlib.run_harness(ctx, binary, args=["-opt", opt], cases=cases, timeout=2400)
+    recs = vlib.run_harness(ctx, binary, args=["-opt", opt] + (["-fresh"] if fresh else []), cases=cases, timeout=2400)
     by = {x["seed"]: x for x in recs if "seed" in x}
     for c in cases:
         if c["seed"] not in by:
@@ -77,10 +77,10 @@ def lang_open_devs():
     return out
 
 
-def run_profile(ctx, binary, profile, lo, n, opt="on", extra=None, check_stamps=True, what="metrics"):
+def run_profile(ctx, binary, profile, lo, n, opt="on", extra=None, check_stamps=True, what="metrics", year=False):
     """Generate seeds lo..lo+n-1, replay, compare with the ideal semantics; mismatches are re-checked with the
     property's open deviations switched on (findings protocol).  Returns number of cases compared."""
-    cases = generate(ctx, profile, lo, lo + n - 1)
+    cases = generate(ctx, profile, lo, lo + n - 1, year=year)
     if len(cases) != n:
         raise vlib.InfraError("TLC emitted %d cases, expected %d" % (len(cases), n))
     by = replay(ctx, binary, cases, opt, extra)
@@ -109,17 +109,17 @@ def run_profile(ctx, binary, profile, lo, n, opt="on", extra=None, check_stamps=
                     "lines": [" ".join("".join(t) for t in l["toks"]) for l in c["lines"]],
                     "expected_after_last_line": c["exp"][-1] if c["exp"] else None}, limit=3)
     if suspects:
-        explain(ctx, binary, profile, suspects, opt, extra, check_stamps)
+        explain(ctx, binary, profile, suspects, opt, extra, check_stamps, year)
     return len(cases)
 
 
-def explain(ctx, binary, profile, suspects, opt, extra, check_stamps):
+def explain(ctx, binary, profile, suspects, opt, extra, check_stamps, year=False):
     """DESIGN 4.4 step 3: a mismatch against the corrected spec is re-checked with the open deviations on."""
     devs = lang_open_devs()
     own = set(vlib.open_devs(ctx.prop))
     explained = {}
     if devs:
-        dcases = generate(ctx, profile, seedset=sorted(suspects), devs=devs)
+        dcases = generate(ctx, profile, seedset=sorted(suspects), devs=devs, year=year)
         by = replay(ctx, binary, dcases, opt, extra)
         for c in dcases:
             out, _, _ = langlib.compare_case(c, by[c["seed"]], check_stamps)
@@ -137,7 +137,7 @@ def explain(ctx, binary, profile, suspects, opt, extra, check_stamps):
             ctx.violation({"profile": profile, "seed": seed, "generator": "spec/MtailGen.tla GenCase(seed)",
                            "source": again[seed]["runs"][0]["src"],
                            "lines": [" ".join("".join(t) for t in l["toks"]) for l in c["lines"]],
-                           "mismatches": out2[:6], "opt": opt, "extra": extra},
+                           "mismatches": out2[:6], "opt": opt, "extra": extra, "year": year},
                           "seed %d: %s" % (seed, out2[0][:300]))
     if explained:
         ctx.cov["explained_by_findings_of"] = devs
@@ -183,3 +183,31 @@ def run_witnesses(ctx, binary):
                     departs.append("%s = %s, reference %s" % (name, got, want))
         if departs:
             ctx.known_finding(f["deviation"], "%s; witness %r on lines %s: %s" % (f["what"], w["source"], w["lines"], departs[0]))
+
+
+def compare_fresh(rec):
+    """C05 literally: the line's effect on the long-running VM (a) equals its effect on a fresh copy with the same
+    metric values (b).  Returns mismatch strings."""
+    bad = []
+    for run in rec["runs"]:
+        if run.get("fresherr"):
+            raise vlib.InfraError("fresh-copy driver failed: %s" % run["fresherr"])
+        for i, p in enumerate(run.get("fresh") or []):
+            a, b = p["a"], p["b"]
+            if a["err"] != b["err"]:
+                bad.append("line %d: runtime error %s on the running VM, %s on the fresh copy (%s)" % (
+                    i + 1, a["err"], b["err"], (a.get("errmsg") or b.get("errmsg") or "").split("\n")[0][:160]))
+            for ma, mb in zip(a["metrics"], b["metrics"]):
+                la, lb = ma["lvs"] or [], mb["lvs"] or []
+                if [(x["l"], x["i"], x["fs"], x["s"], x["e"]) for x in la] != [(x["l"], x["i"], x["fs"], x["s"], x["e"]) for x in lb]:
+                    bad.append("line %d: metric %s: running VM %s, fresh copy %s" % (
+                        i + 1, ma["name"], [(x["l"], x["i"], x["fs"], x["s"]) for x in la], [(x["l"], x["i"], x["fs"], x["s"]) for x in lb]))
+                    continue
+                for x, y in zip(la, lb):
+                    xa = a["t0"] <= x["t"] <= a["t1"]
+                    yb = b["t0"] <= y["t"] <= b["t1"]
+                    if xa != yb or (not xa and x["t"] != y["t"]):
+                        bad.append("line %d: metric %s%s: timestamp %d on the running VM, %d on the fresh copy" % (i + 1, ma["name"], x["l"], x["t"], y["t"]))
+            if bad:
+                return bad
+    return bad
